@@ -49,6 +49,10 @@ def _on_raise(exc, args, kwargs):
 
 
 def _install(ctx):
+    if _state.get('installed'):
+        _state['ctx'] = ctx
+        return
+    _state['installed'] = True
     import parso.pgen2.generator as gen
     import parso.pgen2 as pg
     import parso.grammar as gr
